@@ -74,6 +74,44 @@ example :
     s.w.idx.rows.map (fun r => (r.recd, r.blk)) = [(0, 0), (5, 0)] := by
   decide
 
+/-- (7) `GetLastIndexedRecordAndBlock` returns a position at or behind every row's last-known
+    position (tombstones included): the next write operation starts indexing at the end of what
+    the index knows. -/
+theorem lastIndexed_is_max (p : Idx) (rs : Int) :
+    ∀ r ∈ p.rows, r.lkRecd * rs + r.lkBlk ≤ (p.lastIndexed rs).1 * rs + (p.lastIndexed rs).2 := by
+  unfold Idx.lastIndexed
+  have key : ∀ (rows : List Row) (best : Int × Int),
+      best.1 * rs + best.2 ≤ (rows.foldl (fun (b : Int × Int) r =>
+          if r.lkRecd * rs + r.lkBlk > b.1 * rs + b.2 then (r.lkRecd, r.lkBlk) else b) best).1 * rs +
+        (rows.foldl (fun (b : Int × Int) r =>
+          if r.lkRecd * rs + r.lkBlk > b.1 * rs + b.2 then (r.lkRecd, r.lkBlk) else b) best).2 ∧
+      ∀ r ∈ rows, r.lkRecd * rs + r.lkBlk ≤ (rows.foldl (fun (b : Int × Int) r =>
+          if r.lkRecd * rs + r.lkBlk > b.1 * rs + b.2 then (r.lkRecd, r.lkBlk) else b) best).1 * rs +
+        (rows.foldl (fun (b : Int × Int) r =>
+          if r.lkRecd * rs + r.lkBlk > b.1 * rs + b.2 then (r.lkRecd, r.lkBlk) else b) best).2 := by
+    intro rows
+    induction rows with
+    | nil => intro best; exact ⟨Int.le_refl _, fun r hr => by cases hr⟩
+    | cons x xs ih =>
+      intro best
+      simp only [List.foldl_cons]
+      by_cases hx : x.lkRecd * rs + x.lkBlk > best.1 * rs + best.2
+      · simp only [hx, if_true]
+        obtain ⟨h1, h2⟩ := ih (x.lkRecd, x.lkBlk)
+        refine ⟨Int.le_trans (Int.le_of_lt hx) h1, ?_⟩
+        intro r hr
+        cases hr with
+        | head => exact h1
+        | tail _ hr => exact h2 r hr
+      · simp only [hx, if_false]
+        obtain ⟨h1, h2⟩ := ih best
+        refine ⟨h1, ?_⟩
+        intro r hr
+        cases hr with
+        | head => exact Int.le_trans (Int.not_lt.mp hx) h1
+        | tail _ hr => exact h2 r hr
+  exact (key p.rows (0, 0)).2
+
 -- MIRRORS-BEGIN (maintained by bin/update-mirrors)
 /-- The parts of the model this file's theorems are about were written by hand against these
     versions of the functions they mirror (fingerprint of each function's comment-free source,
